@@ -159,14 +159,10 @@ fn canon_real(stdout: &str, r: &Result<Result<String, String>, String>) -> Strin
 
 const FUEL: u32 = 20000;
 
-/// Finding ids whose shape is generated again (`--allow=F-C04-2,F-C04-3`): for use after a repair
-/// has been applied, before the entry is flipped to status=fixed. Default: none.
-static ALLOW: std::sync::OnceLock<Vec<String>> = std::sync::OnceLock::new();
-fn allowed(id: &str) -> bool {
-    ALLOW.get().is_some_and(|v| v.iter().any(|x| x == id))
-}
+/// Rendering used for generated programs: call results are assigned directly (`v = f()`), the
+/// shape of the repaired F-C04-2.
 fn default_opts() -> RenderOpts {
-    RenderOpts { direct_call_assign: allowed("F-C04-2") }
+    RenderOpts { direct_call_assign: true }
 }
 
 fn model_req(mode: &str, p: &Prog) -> String {
@@ -178,15 +174,12 @@ fn model_req(mode: &str, p: &Prog) -> String {
 struct Ctx {
     rep: Report,
     drv: Driver,
-    open: Vec<String>,
-    attributed: std::collections::BTreeMap<String, u64>,
     fails: u64,
 }
 
 #[derive(Clone, Debug, PartialEq)]
 enum Verdict {
     Agree,
-    Known(String),
     Differ,
 }
 
@@ -199,13 +192,6 @@ impl Ctx {
         let model = self.drv.ask(&model_req("g", p));
         if real == model {
             return (Verdict::Agree, src, real, model);
-        }
-        // precise cause rule for F-C04-6: the only deviation is the stringification at `for`
-        if self.open.iter().any(|x| x == "F-C04-6") && p.has_for_gen() {
-            let model_s = self.drv.ask(&model_req("s", p));
-            if real == model_s {
-                return (Verdict::Known("F-C04-6".into()), src, real, model);
-            }
         }
         (Verdict::Differ, src, real, model)
     }
@@ -287,9 +273,6 @@ impl Ctx {
         }
         match v {
             Verdict::Agree => {}
-            Verdict::Known(id) => {
-                *self.attributed.entry(id).or_insert(0) += 1;
-            }
             Verdict::Differ => {
                 self.fails += 1;
                 if self.fails <= 5 {
@@ -328,24 +311,16 @@ fn main() {
         }
         return;
     }
-    let allow: Vec<String> = args
-        .extra
-        .iter()
-        .filter_map(|x| x.strip_prefix("--allow="))
-        .flat_map(|x| x.split(',').map(|y| y.to_string()))
-        .collect();
-    let _ = ALLOW.set(allow);
     let mut rep = Report::new("C04", &args);
     rep.rule = "cases: (K/D) programs of the C04 mini language (markers, locals, in-place lists, throw, runtime-error primitives, functions to call depth 5, each/keep/fold/sort callbacks, generators consumed by for, overloaded + < >=, try/typed catch/finally to nesting 3, return/break/continue) generated from the seed with planted fault points and compared with the guide-level evaluator; (K2) programs of the mechanism model's fragment compared with Model/TryMech.lean; plus corpus and finding witnesses. distinct = distinct program S-expressions; non-trivial = at least one planted fault point and at least one try (every K2 program counts)".into();
     rep.extra.insert(
         "envelope".into(),
         json!({
             "not_generated_shapes": ["F-C04-1: try WITH finally left by return/break/continue/an error escaping a catch block",
-                "F-C04-2: call result assigned directly to an existing local (renderer routes call results through a fresh temporary)",
-                "F-C04-3: wrong-arg-count call inside a try body of the same frame",
                 "F-C04-4: error raised inside an open string interpolation",
                 "F-C04-5: break/continue out of a try body"],
-            "attributed_by_cause_rule": ["F-C04-6: real trace = model trace with errors stringified at for-consumed iterators"],
+            "attributed_by_cause_rule": [],
+            "generated_again_after_fix": ["F-C04-2 (08c98b7..c937342): call results assigned directly to existing locals", "F-C04-3 (05bcc99): wrong-arg-count calls inside try bodies", "F-C04-6 (08c98b7): no attribution rule; generator errors must arrive with their thrown value"],
             "k2_family": "shapes of F-C04-1 ARE generated in the K2 family: the mechanism model must predict the real runtime there",
             "other_limits": ["loops never in value position", "strings are atoms (no string operations)", "objects with operators are created in main only", "keep/sort callbacks return Bool/Number by construction", "stack traces appended to messages are stripped before comparison"]
         }),
@@ -353,7 +328,8 @@ fn main() {
     let open: Vec<String> =
         rep.known_open().iter().filter_map(|e| e.get("id").and_then(|x| x.as_str()).map(|s| s.to_string())).collect();
     let drv = Driver::spawn(&args.driver);
-    let mut cx = Ctx { rep, drv, open, attributed: Default::default(), fails: 0 };
+    let _ = open;
+    let mut cx = Ctx { rep, drv, fails: 0 };
 
     // ---- one-shot modes
     if let Some(i) = args.extra.iter().position(|x| x == "--show") {
@@ -376,7 +352,7 @@ fn main() {
             cx.check_mech(&p, "replay");
             std::process::exit(cx.rep.finish());
         }
-        let (verdict, src, real, model) = cx.compare(&p, &RenderOpts::default());
+        let (verdict, src, real, model) = cx.compare(&p, &default_opts());
         println!("{}\n-- verdict {:?}\n-- impl : {}\n-- model: {}", src, verdict, real, model);
         cx.check(&p, "replay");
         std::process::exit(cx.rep.finish());
@@ -439,10 +415,6 @@ fn main() {
     }
     for (k, v) in rejected {
         cx.rep.bump_by(&format!("generation_filter_rejected:{}", k), v);
-    }
-    let at = cx.attributed.clone();
-    for (id, n) in at {
-        cx.rep.bump_by(&format!("attributed_to_{}", id), n);
     }
     cx.rep.extra.insert("disagreements".into(), json!(cx.fails));
     cx.rep.extra.insert("driver_requests".into(), json!(cx.drv.requests));
@@ -1530,7 +1502,6 @@ fn shape_walk(e: &E, s: Shape) -> Option<&'static str> {
     let sub = |x: &E, s: Shape| shape_walk(x, s);
     match e {
         E::Lit(_) | E::Var(_) | E::GVar(_) | E::MkObj(_) | E::Emit(_, None) => None,
-        E::Fault(FaultKind::Args) if s.in_try_body => Some("F-C04-3:wrong-arg-count call inside a try body of the same frame"),
         E::Fault(_) => {
             if s.no_escape {
                 Some("F-C04-1:error can escape a catch block of a try with finally")
@@ -1837,10 +1808,7 @@ impl Prog {
     /// The documented shapes of the known findings (and the modelled envelope). A program with a
     /// shape violation is not generated; this is a generation filter, never a suppression rule.
     fn shape_violation(&self) -> Option<&'static str> {
-        match self.shape_violation_raw() {
-            Some(w) if allowed(w.split(':').next().unwrap_or("")) => None,
-            r => r,
-        }
+        self.shape_violation_raw()
     }
 
     fn shape_violation_raw(&self) -> Option<&'static str> {
@@ -1874,10 +1842,6 @@ impl Prog {
             return Some("envelope:call to an undefined function");
         }
         shape_walk(&self.main, Shape::default())
-    }
-
-    fn has_for_gen(&self) -> bool {
-        self.all_bodies().iter().any(|b| has_node(b, &|e| matches!(e, E::ForG(..))))
     }
 
     fn call_depth_of(&self, e: &E, memo: &mut Vec<Option<u32>>) -> u32 {
@@ -2364,7 +2328,6 @@ impl<'a> G<'a> {
         cb.depth = cx.depth.saturating_sub(1);
         cb.try_depth = cx.try_depth + 1;
         cb.in_loop_ok = false; // break/continue would leave the try body (F-C04-5)
-        cb.args_fault_ok = allowed("F-C04-3"); // F-C04-3
         cb.no_escape = false;
         if has_fin {
             cb.ret_ok = false; // F-C04-1
